@@ -117,6 +117,8 @@ def _iso_under_renaming(nz, code, ref):
     import itertools
     from .exprs import Poly, Rat
     unk = sorted({a for a in (code.n.atoms() | code.d.atoms()) if a.startswith("?")})
+    if any("(" in a for a in unk):
+        return False        # an unknown *expression* (a call, a chain with adaptors) is not a quantity that merely changed its name
     ref_atoms = ref.n.atoms() | ref.d.atoms()
     code_known = (code.n.atoms() | code.d.atoms()) - set(unk)
     free = sorted(a for a in ref_atoms - code_known if "#" not in a)
